@@ -42,6 +42,8 @@ type Contract struct {
 	UsesAtRet   []Clause
 	Ghosts      []ghostDecl
 	Cases       []caseSplit
+	Calls       []string         // every returning path has called these module functions
+	LoopCalls   map[int][]string // every iteration of loop N calls these module functions
 	Logicals    []logicalDecl // universally quantified specification variables (fresh at entry)
 	RefusalImp  []Clause      // every refusal (panic) path must satisfy these (entry-state expressions)
 	Flags       map[string]bool
@@ -112,7 +114,7 @@ type ContractSet struct {
 	Lemmas    []*Lemma
 }
 
-var kwRe = regexp.MustCompile(`^(func|def|recdef|opaque|reveal|mapinv|lemma|axiom|assert|use_at_return|use|ghost|cases|props|circuit|plain|requires|ensures|honest|loop|modifies|flag|hint|sound_ensures|complete_ensures|sound_requires|complete_requires)\b`)
+var kwRe = regexp.MustCompile(`^(func|def|recdef|opaque|reveal|mapinv|lemma|axiom|assert|use_at_return|use|ghost|cases|calls|logical|refusal_implies|props|circuit|plain|requires|ensures|honest|loop|modifies|flag|hint|sound_ensures|complete_ensures|sound_requires|complete_requires)\b`)
 
 func endsOpen(s string) bool {
 	s = strings.TrimSpace(s)
@@ -428,6 +430,8 @@ func parseClause(c *Contract, t string, no int) error {
 			cs.Quick = append(cs.Quick, v)
 		}
 		c.Cases = append(c.Cases, cs)
+	case "calls":
+		c.Calls = append(c.Calls, strings.Fields(rest)...)
 	case "logical":
 		fs := strings.Fields(rest)
 		if len(fs) != 2 || (fs[1] != "string" && fs[1] != "int") {
@@ -444,6 +448,17 @@ func parseClause(c *Contract, t string, no int) error {
 		c.HintNames = append(c.HintNames, strings.Fields(rest)...)
 	case "loop":
 		fs := strings.Fields(rest)
+		if len(fs) >= 3 && fs[1] == "calls" {
+			n, err := strconv.Atoi(fs[0])
+			if err != nil {
+				return err
+			}
+			if c.LoopCalls == nil {
+				c.LoopCalls = map[int][]string{}
+			}
+			c.LoopCalls[n] = append(c.LoopCalls[n], fs[2:]...)
+			return nil
+		}
 		if len(fs) >= 3 && fs[1] == "use" {
 			n, err := strconv.Atoi(fs[0])
 			if err != nil {
